@@ -414,12 +414,32 @@ func ruleSOrder(c *Ctx) {
 		fn := c.P.Func("bscript/interpreter", s.recv, s.name)
 		key := strings.TrimPrefix(s.recv, "*") + "." + s.name
 		if fn != nil && s.anon >= 0 {
-			if s.anon < len(fn.AnonFuncs) {
-				fn = fn.AnonFuncs[s.anon]
-				key += "$1"
-			} else {
-				fn = nil
+			// the step loop: written as a function literal inside execute, or moved into a helper of
+			// its own (a function outside the baseline list that execute calls); found by what it calls
+			var cands []*ssa.Function
+			cands = append(cands, fn.AnonFuncs...)
+			for _, b := range fn.Blocks {
+				for _, ins := range b.Instrs {
+					if call, ok := ins.(*ssa.Call); ok {
+						if sc := call.Call.StaticCallee(); sc != nil && inlineHelper != nil && inlineHelper(sc) && len(sc.Blocks) > 0 {
+							cands = append(cands, sc)
+						}
+					}
+				}
 			}
+			fn = nil
+			for _, cf := range cands {
+				for _, b := range cf.Blocks {
+					for _, ins := range b.Instrs {
+						if call, ok := ins.(*ssa.Call); ok {
+							if sc := call.Call.StaticCallee(); sc != nil && sc.Name() == "Step" {
+								fn = cf
+							}
+						}
+					}
+				}
+			}
+			key += "$1"
 		}
 		if fn == nil {
 			c.Undecided("S-order", key, token.NoPos, "function not found")
@@ -485,10 +505,10 @@ func ruleSOrder(c *Ctx) {
 	who := map[string][]string{
 		"afterSuccess":        {"(*bscript/interpreter.thread).CheckErrorCondition"},
 		"afterError":          {"(*bscript/interpreter.engine).Execute"},
-		"beforeExecute":       {"(*bscript/interpreter.thread).execute$1"},
-		"afterExecute":        {"(*bscript/interpreter.thread).execute$1"},
-		"beforeStep":          {"(*bscript/interpreter.thread).execute$1"},
-		"afterStep":           {"(*bscript/interpreter.thread).execute$1"},
+		"beforeExecute":       {"(*bscript/interpreter.thread).execute"},
+		"afterExecute":        {"(*bscript/interpreter.thread).execute"},
+		"beforeStep":          {"(*bscript/interpreter.thread).execute"},
+		"afterStep":           {"(*bscript/interpreter.thread).execute"},
 		"beforeScriptChange":  {"(*bscript/interpreter.thread).shiftScript"},
 		"afterScriptChange":   {"(*bscript/interpreter.thread).shiftScript"},
 		"beforeStackPush":     {"(*bscript/interpreter.stack).PushByteArray"},
@@ -519,7 +539,14 @@ func ruleSOrder(c *Ctx) {
 						if callers[sc.Name()] == nil {
 							callers[sc.Name()] = map[string]bool{}
 						}
-						callers[sc.Name()][funcName(fn)] = true
+						// by enclosing named baseline function: a function literal counts as its parent, a
+						// helper outside the baseline list as the functions that call it
+						for _, af := range attributedTo(c.P, fn) {
+							for af.Parent() != nil {
+								af = af.Parent()
+							}
+							callers[sc.Name()][funcName(af)] = true
+						}
 					}
 				}
 			}
